@@ -5,6 +5,7 @@ package snaps
 import (
 	"encoding/json"
 	"fmt"
+	"github.com/gkampitakis/go-snaps/match"
 	"os"
 	"path/filepath"
 	"strings"
@@ -155,6 +156,22 @@ func c19Gen(c *vfCtx, emit func(c19Case)) {
 			emit(c19Case{Name: "TestA/s", API: "sjson", Vals: []string{`{"a":1}`, `[1]`}, New: []string{`{}`, `[1]`}, Execs: 2, File: f, Ext: ext})
 		}
 	}
+	// a rejected call (not a document / matcher error / not marshalable) at every position of a 3-call test: the others keep their files
+	for _, n := range names[:3] {
+		for _, bad := range []string{"!invalid", "!matcher", "!marshal"} {
+			for pos := 0; pos < 3; pos++ {
+				vals := []string{`{"k":1}`, `{"k":2}`, `{"k":3}`}
+				neu := []string{`{"k":10}`, `{"k":20}`, `{"k":30}`}
+				vals[pos], neu[pos] = bad, bad
+				emit(c19Case{Name: n, API: "sjson", Vals: vals, New: neu, Execs: 2})
+				// rejected while recording, accepted in the update run (and the other way round)
+				neu2 := []string{`{"k":10}`, `{"k":20}`, `{"k":30}`}
+				emit(c19Case{Name: n, API: "sjson", Vals: vals, New: neu2, Execs: 2})
+				vals3 := []string{`{"k":1}`, `{"k":2}`, `{"k":3}`}
+				emit(c19Case{Name: n, API: "sjson", Vals: vals3, New: neu, Execs: 1})
+			}
+		}
+	}
 	// MatchStandaloneJSON: canonical pretty JSON, valid JSON
 	jdocs := []string{`1`, `"a"`, `null`, `[]`, `{}`, `{"b":1,"a":[1,2,{"c":"é"}]}`, `"---"`, `["[TestA - 1]"]`, `{"a":"x\ny\r"}`, ` {"a" : 1 } `, "{\n\t\"a\":1\n}\n"}
 	for _, n := range names {
@@ -196,6 +213,18 @@ func c19Run(c *vfCtx, cs c19Case) {
 		return WithConfig(o...)
 	}
 	do := func(cfg *Config, t *vfT, v string) {
+		switch v {
+		// calls that are rejected before a snapshot is taken: they still are the k-th standalone call of the test
+		case "!invalid":
+			cfg.MatchStandaloneJSON(t, `{"a":`)
+			return
+		case "!matcher":
+			cfg.MatchStandaloneJSON(t, `{"a":1}`, match.Any("missing"), match.Type[string]("a"))
+			return
+		case "!marshal":
+			cfg.MatchStandaloneJSON(t, map[string]any{"c": make(chan int)})
+			return
+		}
 		if cs.API == "sjson" {
 			cfg.MatchStandaloneJSON(t, c19Input(v))
 		} else {
@@ -211,7 +240,12 @@ func c19Run(c *vfCtx, cs c19Case) {
 				_ = name
 			}
 		}
+		expected := 0
 		for k, v := range vals {
+			if strings.HasPrefix(v, "!") {
+				continue
+			}
+			expected++
 			f := fileOf(k + 1)
 			o, ok := obs[f]
 			if !ok {
@@ -241,14 +275,14 @@ func c19Run(c *vfCtx, cs c19Case) {
 				return false
 			}
 		}
-		if n != len(vals) {
+		if n != expected {
 			var have []string
 			for name, oo := range obs {
 				if !oo.IsDir {
 					have = append(have, name)
 				}
 			}
-			c.violation(class, fmt.Sprintf("%s: expected exactly %d files, directory holds %v", phase, len(vals), vfSorted(have)), cs)
+			c.violation(class, fmt.Sprintf("%s: expected exactly %d files, directory holds %v", phase, expected, vfSorted(have)), cs)
 			return false
 		}
 		return true
@@ -265,6 +299,9 @@ func c19Run(c *vfCtx, cs c19Case) {
 			want := "pass"
 			if e == 1 {
 				want = "added"
+			}
+			if strings.HasPrefix(v, "!") {
+				want = "failed"
 			}
 			c.outcome(fmt.Sprintf("exec%d:%s", e, got))
 			if got != want {
@@ -300,13 +337,24 @@ func c19Run(c *vfCtx, cs c19Case) {
 		if same {
 			want = "pass"
 		}
+		if strings.HasPrefix(v, "!") {
+			want = "failed"
+		} else if strings.HasPrefix(cs.Vals[k], "!") {
+			want = "added" // the slot of a call that was rejected in the recording executions is still free
+		}
 		if got != want {
 			c.violation(class, fmt.Sprintf("update run, call %d (%q -> %q): signalled %s, expected %s %v", k+1, vfClip(cs.Vals[k]), vfClip(v), got, want, t.errs), cs)
 			return
 		}
 	}
 	t.end()
-	if !expectFiles(cs.New, "after the update run") {
+	eff := append([]string{}, cs.New...)
+	for k, v := range eff {
+		if strings.HasPrefix(v, "!") {
+			eff[k] = cs.Vals[k] // a rejected call leaves the file of its slot as it was
+		}
+	}
+	if !expectFiles(eff, "after the update run") {
 		return
 	}
 	c.addSet("states", vfHashDir(vfSnapDir(dir)))
@@ -318,7 +366,7 @@ func c19Run(c *vfCtx, cs c19Case) {
 	for k, v := range cs.New {
 		mk := t2.mark()
 		do(cfg2, t2, v)
-		if got := t2.outcome(mk); got != "pass" {
+		if got := t2.outcome(mk); got != "pass" && !(strings.HasPrefix(v, "!") && got == "failed") {
 			c.violation(class, fmt.Sprintf("replay after update, call %d: %s %v", k+1, got, t2.errs), cs)
 			return
 		}
